@@ -6,7 +6,7 @@ import random
 from . import rx
 
 NL = 10
-TABLE_OPTS = ['', '-Cem', '-Ce', '-Cm', '-C', '-Cf', '-CF', '-Cae', '-Caf', '-CaF', '-Ca']
+TABLE_OPTS = ['', '-Cem', '-Ce', '-Cm', '-C', '-Cf', '-CF', '-Cae', '-Caf', '-CaF', '-Ca', '-Cfe', '-CFe', '-Cfae', '-CFae', '-Caem']
 
 
 class Rule:
@@ -505,6 +505,12 @@ def gen_scenario(rng, want=None, forbid=()):
     sc.buf_size = rng.choice([None, None, 1, 2, 3, 4, 5, 7, 8, 9, 15, 16, 17, 63, 64, 200])
     for k, v in want.items():
         setattr(sc, k, v)
+    import os
+    if os.environ.get('VERIF_FORCE_TABLES') is not None:
+        # experiment knob (directed exploration of one table representation)
+        sc.tables = os.environ['VERIF_FORCE_TABLES']
+        want = dict(want)
+        want['tables'] = sc.tables
     # combinations flex refuses (documented): REJECT / variable trailing
     # context with -Cf/-CF.  Keep the configuration legal.
     if sc.fulltbl() and (sc.reject or sc.has_vtc()):
